@@ -1,4 +1,8 @@
-"""props.py -- per-property configuration of ./check."""
+"""props.py -- loads the per-property configuration from lib/props.d/C*.py
+(each defines PROP = {...}; see props.d/C06.py for the fields)."""
+import glob
+import importlib.util
+import os
 
 
 def nontrivial_rule(P):
@@ -8,12 +12,10 @@ def nontrivial_rule(P):
     return lambda case, obs: len(obs.split()) > 2
 
 
-PROPS = {
-    "C06": {
-        "num": 6,
-        "runs": [{"tag": "c06", "bin": "c06"}],
-        "mismatch_is_failing": True,
-        "rule": "exhaustive: every reachable (front,back) position (directly and through clone) x every operation x every argument 0..=len+2 and usize::MAX for N<=5 (thorough: N<=8), followed by a fixed observation trailer; plus seeded histories over N in {0,1,2,3,5,8,16,97,1024}. distinct = distinct CASE lines; non-trivial = the array is non-empty (first integer > 0)",
-        "nontrivial": lambda case, obs: case.split()[0] != "0",
-    },
-}
+PROPS = {}
+for _p in sorted(glob.glob(os.path.join(os.path.dirname(os.path.abspath(__file__)), "props.d", "C*.py"))):
+    _name = os.path.basename(_p)[:-3]
+    _spec = importlib.util.spec_from_file_location("props_d_" + _name, _p)
+    _mod = importlib.util.module_from_spec(_spec)
+    _spec.loader.exec_module(_mod)
+    PROPS[_name] = _mod.PROP
